@@ -8,6 +8,7 @@ import io
 import ast
 import keyword
 import tokenize
+import unicodedata
 
 HARD_KW = set(keyword.kwlist)
 
@@ -148,7 +149,7 @@ def definition_ranges(text):
     def_name_at = {}
     for i, t in enumerate(toks[:-1]):
         if t.string in ("def", "class"):
-            def_name_at[(t.start[0], toks[i + 1].string)] = (t.start, toks[i + 1].start)
+            def_name_at[(t.start[0], unicodedata.normalize("NFKC", toks[i + 1].string))] = (t.start, toks[i + 1].start)
     by_end = {t.end: t for t in toks}
     for node in ast.walk(tree):
         if isinstance(node, (ast.FunctionDef, ast.AsyncFunctionDef, ast.ClassDef)):
